@@ -990,7 +990,98 @@ fn gen_op_ext(r: &mut StdRng, m: &mut Model, max_live: usize) -> Option<Value> {
     Some(json!({"op": "par_alg", "a": gen_raw_par(r), "b": gen_raw_par(r)}))
 }
 
+/// Specification -> implementation: every line of `path` is one history printed by TLC from mc/MC_BackendsReplay.tla
+/// (`{"hist": [...], "v": <what the vector backend must show>, "h": <hash backend>, "e": <edges in tag space>}`). Each is
+/// executed from the empty graph on BOTH real backends; the run is logged in the ordinary `begin` / `op` format (so that
+/// Trace_Backends judges every step) and the final public state is compared with the prediction of spec/Backends.tla:
+/// exact vertex names per tag, vindex(), num_vertices(), num_edges(), inputs(), outputs(), edges with types.
+pub fn record_from_tlc(path: &str, tr: &mut Tr) -> Value {
+    use std::io::BufRead;
+    let f = std::io::BufReader::new(std::fs::File::open(path).expect("history file"));
+    let (mut nh, mut nops, mut mism) = (0usize, 0usize, 0usize);
+    let mut first_mismatch = Value::Null;
+    let pred_of = |o: &Value| -> Value {
+        let mut names: Vec<(i64, u64)> = o["verts"].as_array().unwrap().iter().map(|v| (v["tag"].as_i64().unwrap(), v["name"].as_u64().unwrap())).collect();
+        names.sort_by_key(|x| x.1);
+        json!({"names": names.iter().map(|(t, n)| json!([t, n])).collect::<Vec<_>>(), "vindex": o["vindex"], "numv": o["numv"], "nume": o["nume"],
+               "ins": o["ins"], "outs": o["outs"]})
+    };
+    for line in f.lines() {
+        let line = line.unwrap();
+        if line.trim().is_empty() {
+            continue;
+        }
+        let h: Value = serde_json::from_str(&line).expect("history line");
+        let mut gv = quizx::vec_graph::Graph::new();
+        let mut gh = quizx::hash_graph::Graph::new();
+        let mut side_v: Vec<quizx::vec_graph::Graph> = vec![];
+        let mut side_h: Vec<quizx::hash_graph::Graph> = vec![];
+        tr.group();
+        tr.emit(json!({"k": "begin", "from": "tlc"}));
+        nh += 1;
+        let mut ops: Vec<Value> = vec![];
+        for op in h["hist"].as_array().unwrap() {
+            if op["op"] == "set_boundary" {
+                ops.push(json!({"op": "set_inputs", "ts": [op["i"]]}));
+                ops.push(json!({"op": "set_outputs", "ts": [op["o"]]}));
+            } else {
+                ops.push(op.clone());
+            }
+        }
+        let mut dead = false;
+        for op in ops {
+            let (cv, ch) = (gv.clone(), gh.clone());
+            let rv = apply(&mut gv, &op, &mut side_v, &ch);
+            let rh = apply(&mut gh, &op, &mut side_h, &cv);
+            nops += 1;
+            let (ov, oh) = (guarded(|| obs(&gv)), guarded(|| obs(&gh)));
+            let mut e = json!({"k": "op", "op": op, "rv": rv, "rh": rh});
+            match (ov, oh) {
+                (Ok(a), Ok(b)) => {
+                    e["ov"] = a;
+                    e["oh"] = b;
+                    tr.emit(e);
+                }
+                _ => {
+                    e["obs_panic"] = json!(true);
+                    tr.emit(e);
+                    dead = true;
+                    break;
+                }
+            }
+            if rv["res"] == "panic" || rh["res"] == "panic" {
+                dead = true;
+                break;
+            }
+        }
+        // the prediction of the specification for the state after the whole history
+        let ok = !dead && {
+            let (a, b) = (obs(&gv), obs(&gh));
+            let mut es: Vec<(i64, i64, String)> = a["conn"].as_array().unwrap().iter().filter_map(|c| {
+                let nm2tag = |n: u64| a["verts"].as_array().unwrap().iter().find(|v| v["name"].as_u64() == Some(n)).unwrap()["tag"].as_i64().unwrap();
+                let (x, y) = (nm2tag(c[0].as_u64().unwrap()), nm2tag(c[1].as_u64().unwrap()));
+                let et = gv.edge_type_opt(c[0].as_u64().unwrap() as usize, c[1].as_u64().unwrap() as usize).map(ets).unwrap_or("?").to_string();
+                if x < y { Some((x, y, et)) } else { None }
+            }).collect();
+            es.sort();
+            let mut pe: Vec<(i64, i64, String)> = h["e"].as_array().unwrap().iter().map(|x| (x[0].as_i64().unwrap(), x[1].as_i64().unwrap(), x[2].as_str().unwrap().to_string())).collect();
+            pe.sort();
+            pred_of(&a) == h["v"] && pred_of(&b) == h["h"] && es == pe
+        };
+        if !ok {
+            mism += 1;
+            if first_mismatch.is_null() {
+                first_mismatch = json!({"hist": h["hist"], "pred_v": h["v"], "pred_h": h["h"], "got_v": pred_of(&obs(&gv)), "got_h": pred_of(&obs(&gh))});
+            }
+        }
+    }
+    json!({"histories": nh, "ops": nops, "from_tlc": true, "replay_mismatch": mism, "first_mismatch": first_mismatch})
+}
+
 pub fn record(args: &[String], seed: u64, tr: &mut Tr) -> Value {
+    if let Some(p) = crate::util::arg_val(args, "--from-tlc") {
+        return record_from_tlc(&p, tr);
+    }
     let histories: usize = arg_num(args, "--histories", 20);
     let len: usize = arg_num(args, "--len", 60);
     let max_live: usize = arg_num(args, "--maxlive", 7);
